@@ -985,6 +985,41 @@ fn log_uniform(rng: &mut Rng, max: u64) -> u64 {
     (rng.below(hi.min(max)) + 1).min(max)
 }
 
+/// a skipped block of about `target` bytes: kind 0 = BrtBeginColInfos … (N BrtColInfo of 18 bytes), 1 = views
+/// (BrtBeginWsViews … with view records of 30 bytes and a few large ones), 2 = AC block 0x25 … 0x26 holding
+/// unknown-id records of several KiB
+fn long_block(rng: &mut Rng, items: &mut Vec<Fr>, fm: &FrameMode, kind: u8, target: usize) {
+    let (start, end): (u16, u16) = match kind {
+        0 => (0x186, 0x187),
+        1 => (0x85, 0x86),
+        _ => (0x25, 0x26),
+    };
+    let mut push = |rng: &mut Rng, id: u16, payload: Vec<u8>| {
+        let f = fm.frame(rng, It::Raw { id, payload });
+        items.push(f);
+    };
+    push(rng, start, if kind == 2 { vec![1, 0, 0, 0, 0, 0] } else { vec![] });
+    let mut total = 0usize;
+    while total < target {
+        let (id, n) = match kind {
+            0 => (0x3Cu16, 18usize),
+            1 => {
+                if rng.chance(1, 6) {
+                    (*rng.pick(&[0x98u16, 0x97, 0x3FFE]), rng.range(500, 4000) as usize)
+                } else {
+                    (0x89, 30)
+                }
+            }
+            _ => (*rng.pick(&[0x3FFDu16, 0x0401, 0x91, 0x02]), rng.range(1000, 6000) as usize),
+        };
+        let n = n.min(target - total + 7);
+        let p = rng.bytes(n);
+        push(rng, id, p);
+        total += n + 3;
+    }
+    push(rng, end, vec![]);
+}
+
 fn gen_sheet(rng: &mut Rng, name: String, nsst: usize, nxf: usize) -> SheetCase {
     let fm = FrameMode(rng.below(3) as u8);
     let p_noise = *rng.pick(&[0u64, 0, 1, 4]);
@@ -1067,6 +1102,19 @@ fn gen_sheet(rng: &mut Rng, name: String, nsst: usize, nxf: usize) -> SheetCase 
         d.extend(rng.bytes(n)); // longer BrtWsDim than the 16 bytes read
     }
     push(rng, &mut items, 0x94, d);
+    // now and then a LONG skipped block (views / AC / column infos) so that the prologue crosses the reader's
+    // 8 KiB buffer once or several times, with records straddling the refill points
+    if rng.chance(1, 10) {
+        let target = match rng.below(4) {
+            0 => 8192,
+            1 => 16384,
+            2 => 65536,
+            _ => rng.range(5000, 30000) as usize,
+        } + rng.below(96) as usize
+            - 48;
+        let kind = rng.below(3) as u8;
+        long_block(rng, &mut items, &fm, kind, target);
+    }
     if rich || rng.chance(1, 2) {
         push(rng, &mut items, 0x85, vec![]);
         let p = rng.bytes(30);
@@ -1417,7 +1465,7 @@ fn shrink(c: &Case, drv: &mut Driver, kind: &str, sig: &str) -> Case {
             while start < best.sheets[si].items.len() && budget > 0 {
                 let mut t = best.clone();
                 let end = (start + chunk).min(t.sheets[si].items.len());
-                let keep_struct = t.sheets[si].items[start..end].iter().any(|f| matches!(f.it, It::Raw { id: 0x81 | 0x94 | 0x91 | 0x92, .. }));
+                let keep_struct = t.sheets[si].items[start..end].iter().any(|f| matches!(f.it, It::Raw { id: 0x81 | 0x94 | 0x91 | 0x92 | 0x85 | 0x86 | 0x25 | 0x26 | 0x186 | 0x187, .. }));
                 if keep_struct && best.fault == "-" {
                     start += chunk;
                     continue;
@@ -1532,6 +1580,20 @@ fn corpus() -> Vec<Case> {
         it.lenw = (i % 5) as u8;
     }
     v.push(c);
+    // long skipped blocks in the worksheet prologue: records straddling the 8 KiB refill points of the reader's buffer
+    for (pad, n, id_start, id_end, inner, plen) in [(0usize, 450usize, 0x186u16, 0x187u16, 0x3Cu16, 18usize), (7, 900, 0x186, 0x187, 0x3C, 18), (13, 3500, 0x186, 0x187, 0x3C, 18), (3, 40, 0x85, 0x86, 0x89, 1000), (5, 9, 0x25, 0x26, 0x3FFD, 5000)] {
+        let mut c = base_case(vec![row(3), cell(2, 0, Kind::Bool(1), false), cell(4, 1, Kind::Real(44197.0f64.to_bits()), false)]);
+        let mut block = vec![It::Raw { id: 0x3FFF, payload: vec![0xAB; pad] }, It::Raw { id: id_start, payload: vec![] }];
+        for k in 0..n {
+            block.push(It::Raw { id: inner, payload: (0..plen).map(|j| (k * 31 + j * 7) as u8).collect() });
+        }
+        block.push(It::Raw { id: id_end, payload: vec![] });
+        let at = 2; // behind BrtBeginSheet, BrtWsDim
+        let tail = c.sheets[0].items.split_off(at);
+        c.sheets[0].items.extend(plain(block));
+        c.sheets[0].items.extend(tail);
+        v.push(c);
+    }
     // shared strings with rich-text runs, phonetic data and foreign records between the items
     for seed in [1u64, 2, 3, 5] {
         let mut c = base_case(vec![row(0), cell(0, 0, Kind::Isst(0), false), cell(1, 0, Kind::Isst(2), false), cell(2, 0, Kind::Isst(1), false)]);
@@ -1891,6 +1953,72 @@ fn sweeps(_args: &Args, _rng: &mut Rng, _drv: &mut Driver, rep: &mut Report) {
 
 // ------------------------------------------------------------------------------------------------
 
+/// string `i` of the large shared string tables: two units, distinct for every i < 2^28
+fn big_string(i: usize) -> Vec<u16> {
+    vec![0x4E00 + (i & 0x3FFF) as u16, 0x4E00 + (i >> 14) as u16]
+}
+
+/// A workbook whose shared string table has `n` strings (thresholds: 16-bit counters, caps on the declared count)
+/// and one sheet whose BrtCellIsst cells reference the first, the last and the strings around 2^16 and 2^20.
+/// Implementation against the description only (the Lean model indexes a list: it has no size-dependent
+/// behaviour, and shipping 2^20 strings through the line protocol would dominate the run).
+/// Replay form: `bigsst <n>`.
+fn run_big_sst(n: usize, rep: &mut Report) {
+    let input = format!("bigsst {n}");
+    let mut b = XlsbBook::new();
+    b.deflate = false;
+    b.sst = Some((0..n).map(big_string).collect());
+    let mut idx: Vec<usize> = vec![0, n / 2, n - 1, n.saturating_sub(2)];
+    for t in [1usize << 8, 1 << 15, 1 << 16, 1 << 20] {
+        for d in [-1i64, 0, 1] {
+            let i = t as i64 + d;
+            if i >= 0 && (i as usize) < n {
+                idx.push(i as usize);
+            }
+        }
+    }
+    idx.sort();
+    idx.dedup();
+    let mut sh = XlsbSheet::new("Sheet1");
+    for (k, i) in idx.iter().enumerate() {
+        sh.set((k / 8) as u32, (k % 8) as u32, xlsbw::BVal::Isst(*i as u32));
+    }
+    b.sheets.push(sh);
+    let file = b.to_bytes();
+    rep.case(&input, true);
+    rep.add("big_sst_strings", n as u64);
+    let r = guarded(|| -> Result<String, String> {
+        let mut wb: Xlsb<_> = Xlsb::new(Cursor::new(file)).map_err(|e| err_class(&e))?;
+        #[cfg(feature = "hooks")]
+        {
+            let got = calamine::verif_hooks::xlsb::c03_strings(&wb);
+            if got.len() != n {
+                return Err(format!("{} strings loaded", got.len()));
+            }
+            if let Some(bad) = (0..n).find(|i| got[*i].encode_utf16().collect::<Vec<_>>() != big_string(*i)) {
+                return Err(format!("string {bad} differs"));
+            }
+        }
+        let range = wb.worksheet_range("Sheet1").map_err(|e| err_class(&e))?;
+        for (k, i) in idx.iter().enumerate() {
+            let want = Data::String(String::from_utf16_lossy(&big_string(*i)));
+            let got = range.get_value(((k / 8) as u32, (k % 8) as u32));
+            if got != Some(&want) {
+                return Err(format!("cell referencing string {i}: {got:?}"));
+            }
+        }
+        Ok("ok".into())
+    });
+    let (got, ok) = match r {
+        Ok(Ok(s)) => (s, true),
+        Ok(Err(e)) => (e, false),
+        Err(p) => (format!("panic:{p}"), false),
+    };
+    if !ok {
+        rep.fail("impl_vs_spec", "big_sst", &input, &got, "-", &format!("{n} strings loaded, every BrtCellIsst cell shows its string"));
+    }
+}
+
 type Fail = (String, String, String, String, String, String); // kind, sig, input, impl, model, expect
 
 /// shrink each failure whose signature this worker has not seen yet; returns the failures with their inputs
@@ -1990,6 +2118,11 @@ fn main() {
     let mut rng = Rng::new(args.seed);
 
     if let Some(r) = &args.replay {
+        if let Some(n) = r.strip_prefix("bigsst ") {
+            run_big_sst(n.parse().expect("bigsst <n>"), &mut rep);
+            rep.write(&args.out);
+            return;
+        }
         let c = Case::parse(r);
         let out = run_case(&c, &mut drv, None);
         rep.case(r, true);
@@ -2024,6 +2157,13 @@ fn main() {
 
     // unit level
     sweeps(&args, &mut rng, &mut drv, &mut rep);
+
+    // large shared string tables: around 2^16 (16-bit counters) and one above 2^20 (caps on the declared count)
+    for n in [65534usize, 65535, 65536, 65537, 65539, (1 << 20) + 3] {
+        let t0 = std::time::Instant::now();
+        run_big_sst(n, &mut rep);
+        rep.add("time_ms_big_sst", t0.elapsed().as_millis() as u64);
+    }
 
     // generated workbooks, on several worker threads (each with its own driver); the results are applied to the
     // report in case order, so a seed gives the same report whatever the scheduling
